@@ -322,6 +322,28 @@ func (d *deadlineCtx) expire()                           { d.once.Do(func() { cl
 
 const stepWait = 2 * time.Second
 
+// uncompleted: nothing has completed this call so far (no Done signal, the blocking caller not back)
+func uncompleted(mc *muxCall) bool {
+	switch mc.kind {
+	case 'B', 'D', 'R':
+		return mc.ret == nil && len(mc.retCh) == 0
+	}
+	return len(mc.done) == 0
+}
+
+// settle waits for the completion a sender's failure step (or a one-way call's write) produces – when
+// the call was still uncompleted before the step; a call completed earlier gets nothing more
+func settle(mc *muxCall, wasUncompleted bool) {
+	if !wasUncompleted {
+		time.Sleep(300 * time.Microsecond)
+		return
+	}
+	deadline := time.Now().Add(stepWait)
+	for uncompleted(mc) && time.Now().Before(deadline) {
+		time.Sleep(50 * time.Microsecond)
+	}
+}
+
 func waitArr(g *rigGate, what string) error {
 	select {
 	case <-g.arrived:
@@ -975,9 +997,10 @@ func runMuxSchedule(kinds string, evs []string) (string, error) {
 				if mc.phase != 1 {
 					continue
 				}
+				fresh := uncompleted(mc)
 				r.gate(r.encGate, id).release <- false
 				mc.phase = 4
-				time.Sleep(300 * time.Microsecond)
+				settle(mc, fresh)
 			case 'y': // leave the call parked INSIDE its Write (no step of the model)
 				if mc.phase == 1 {
 					r.gate(r.encGate, id).release <- true
@@ -997,13 +1020,20 @@ func runMuxSchedule(kinds string, evs []string) (string, error) {
 				if mc.phase != 2 {
 					continue
 				}
+				fresh := uncompleted(mc)
 				r.gate(r.wrGate, id).release <- (k == 'w')
 				if k == 'w' {
 					mc.phase = 3
 				} else {
 					mc.phase = 4
 				}
-				time.Sleep(300 * time.Microsecond)
+				// the sender's own follow-up (a failed write, or a one-way call once written: look up, delete,
+				// signal) belongs to this step: wait for it instead of hoping that 300 µs are enough
+				if k == 'x' || mc.kind == 'O' {
+					settle(mc, fresh)
+				} else {
+					time.Sleep(300 * time.Microsecond)
+				}
 			case 'c':
 				if (mc.kind != 'B' && mc.kind != 'D') || mc.ret != nil {
 					continue
